@@ -132,3 +132,145 @@ Proof.
       apply filter_all_true. intros [k v] Hin. cbn. apply negb_true_iff, beqb_false. intros ->.
       apply filter_In in Hin. destruct Hin as [Hin _]. apply (proj1 (get_None_notin _ _) G). apply (in_map fst) in Hin. exact Hin.
 Qed.
+
+(* ------------------------------------------------------------------ nest implode across fields: bystanders, for EVERY field name *)
+(* a bystander of  nest --implode --values --across-fields -f F : neither literally F_<digits> nor F itself *)
+Definition nomatch (f : bytes) (kv : field) : bool := negb (nest_suffix_ok f (fst kv)).
+Definition implode_bystander (f : bytes) (kv : field) : bool := nomatch f kv && negb (beqb f (fst kv)).
+
+Lemma take_until_match_split f r :
+  r = fst (take_until_match f r) ++ snd (take_until_match f r)
+  /\ forallb (nomatch f) (fst (take_until_match f r)) = true.
+Proof.
+  induction r as [|[k v] r IH]; cbn [take_until_match]; [split; reflexivity|].
+  destruct (nest_suffix_ok f k) eqn:E; [split; reflexivity|].
+  destruct (take_until_match f r) as [a b]. cbn [fst snd] in *. destruct IH as [H1 H2]. split.
+  - cbn. now rewrite <- H1.
+  - cbn [forallb]. unfold nomatch at 1. cbn [fst]. now rewrite E, H2.
+Qed.
+
+Lemma filter_bystander_nomatch f (x : record) : filter (implode_bystander f) (filter (nomatch f) x) = filter (implode_bystander f) x.
+Proof.
+  rewrite filter_filter. apply filter_ext. intros kv. unfold implode_bystander. destruct (nomatch f kv); reflexivity.
+Qed.
+
+Lemma drop_matching_bystanders f (x : record) : filter (implode_bystander f) (drop_matching f x) = filter (implode_bystander f) x.
+Proof.
+  induction x as [|[k v] x IH]; cbn [drop_matching]; [reflexivity|].
+  destruct (nest_suffix_ok f k) eqn:E; [|reflexivity].
+  rewrite IH. cbn [filter]. unfold implode_bystander at 2, nomatch. cbn [fst]. now rewrite E.
+Qed.
+
+Lemma bystander_f_false f v : implode_bystander f (f, v) = false.
+Proof. unfold implode_bystander. cbn. now rewrite beqb_refl, andb_false_r. Qed.
+
+Lemma filter_cons_false {A} (p : A -> bool) a l : p a = false -> filter p (a :: l) = filter p l.
+Proof. intros H. cbn. now rewrite H. Qed.
+
+Theorem implode_fields_bystanders f sep r :
+  filter (implode_bystander f) (implode_fields f sep r) = filter (implode_bystander f) r.
+Proof.
+  unfold implode_fields. destruct (take_until_match_split f r) as [Hr _].
+  destruct (take_until_match f r) as [pre rest]. cbn [fst snd] in Hr. cbv beta iota zeta.
+  destruct (filter (fun kv => nest_suffix_ok f (fst kv)) rest) as [|m ms]; [reflexivity|].
+  set (v := join_with [sep] (values (m :: ms))).
+  set (post := filter (fun kv => negb (nest_suffix_ok f (fst kv))) rest).
+  assert (Hpost : filter (implode_bystander f) post = filter (implode_bystander f) rest)
+    by (apply (filter_bystander_nomatch f rest)).
+  destruct pre as [|q pre].
+  - cbn [app] in Hr. subst r.
+    destruct (take_until_match_split f (drop_matching f rest)) as [Hd _].
+    destruct (take_until_match f (drop_matching f rest)) as [mid rest2]. cbn [fst snd] in Hd.
+    destruct rest2 as [|x rest2].
+    + destruct (has f post).
+      * rewrite filter_setv_out by (intros; apply bystander_f_false). exact Hpost.
+      * cbn [filter]. rewrite bystander_f_false. exact Hpost.
+    + rewrite filter_app. rewrite filter_cons_false by apply bystander_f_false.
+      match goal with |- context [filter (implode_bystander f) (@filter ?A ?p (x :: rest2))] =>
+        replace (filter (implode_bystander f) (@filter A p (x :: rest2))) with (filter (implode_bystander f) (x :: rest2))
+          by (symmetry; exact (filter_bystander_nomatch f (x :: rest2))) end.
+      rewrite <- filter_app, <- Hd. apply drop_matching_bystanders.
+  - subst r. rewrite !filter_app. cbn [filter]. rewrite bystander_f_false. now rewrite Hpost.
+Qed.
+
+(* ------------------------------------------------------------------ reshape long-to-wide then wide-to-long *)
+Lemma get_own k v (ps : record) : wf ps -> In (k, v) ps -> get k ps = Some v.
+Proof.
+  induction ps as [|[k' v'] ps IH]; intros Hwf Hin; [contradiction|]. cbn.
+  destruct Hin as [[= -> ->]|Hin]; [now rewrite beqb_refl|].
+  destruct (beqb_spec k k') as [->|Hne]; [|apply IH; [eapply wf_tail; eauto|exact Hin]].
+  exfalso. apply (wf_head_notin _ _ _ Hwf). apply (in_map fst) in Hin. exact Hin.
+Qed.
+
+Lemma w2l_pairs_own (others ps : record) :
+  wf ps -> (forall k, In k (keys ps) -> ~ In k (keys others)) -> w2l_pairs (keys ps) (others ++ ps) = ps.
+Proof.
+  intros Hwf Hdis. unfold w2l_pairs. set (r := others ++ ps).
+  assert (G : forall (qs : record) acc, (forall k v, In (k, v) qs -> get k r = Some v) ->
+              fold_left (fun p f => match get f r with Some v => put f v p | None => p end) (keys qs) acc
+              = fold_left (fun o kv => put (fst kv) (snd kv) o) qs acc).
+  { induction qs as [|[k v] qs IH]; intros acc H; cbn [keys map fold_left fst snd]; [reflexivity|].
+    rewrite (H k v (or_introl eq_refl)). apply IH. intros k' v' Hin. apply H. right; exact Hin. }
+  rewrite G.
+  - rewrite (fold_put_appends ps []); [reflexivity|exact Hwf|intros k _ []].
+  - intros k v Hin. unfold r. rewrite get_app.
+    assert (Hk : ~ In k (keys others)) by (apply Hdis; apply (in_map fst) in Hin; exact Hin).
+    rewrite (proj2 (get_None_notin _ _) Hk). apply get_own; auto.
+Qed.
+
+Lemma w2l_others_own (others ps : record) :
+  wf (others ++ ps) -> (forall k, In k (keys ps) -> ~ In k (keys others)) ->
+  fold_left (fun o kv => remove (fst kv) o) ps (others ++ ps) = others.
+Proof.
+  intros Hwf Hdis.
+  assert (E : forall (qs : record) r, fold_left (fun o kv => remove (fst kv) o) qs r = cut_x (keys qs) r).
+  { unfold cut_x. induction qs as [|q qs IH]; intros r; cbn; [reflexivity|]. apply IH. }
+  rewrite E, cut_x_is_filter by exact Hwf. rewrite filter_app.
+  rewrite (filter_all_true _ others), (filter_all_false_ _ ps); [apply app_nil_r| |].
+  - intros [k v] Hin. cbn. apply negb_false_iff, mem_In. apply (in_map fst) in Hin. exact Hin.
+  - intros [k v] Hin. cbn. apply negb_true_iff. destruct (mem k (keys ps)) eqn:M; [|reflexivity].
+    apply mem_In in M. exfalso. apply (Hdis k M). apply (in_map fst) in Hin. exact Hin.
+Qed.
+
+Theorem reshape_l2w_w2l ko vo (others ps : record) :
+  wf (others ++ ps) -> wf ps -> (forall k, In k (keys ps) -> ~ In k (keys others)) ->
+  ~ In ko (keys others) -> ~ In vo (keys others) -> ko <> vo -> ps <> [] ->
+  flat_map (reshape_w2l (keys ps) ko vo) (reshape_l2w ko vo (map (long_row ko vo others) ps))
+  = map (long_row ko vo others) ps.
+Proof.
+  intros Hwf Hwp Hdis Hko Hvo Hne Hps.
+  rewrite (l2w_rows ko vo others Hko Hvo Hne ps Hps).
+  rewrite (fold_put_appends ps []) by (auto; intros k _ []). cbn [app].
+  rewrite (fold_put_appends ps others Hwp Hdis). cbn [flat_map]. rewrite app_nil_r.
+  unfold reshape_w2l. fold (w2l_pairs (keys ps) (others ++ ps)). rewrite (w2l_pairs_own others ps Hwp Hdis).
+  rewrite (w2l_others_own others ps Hwf Hdis). destruct ps; [congruence|reflexivity].
+Qed.
+
+(* ------------------------------------------------------------------ altkv *)
+Fixpoint pairs_vals (vs : list bytes) : list (bytes * bytes) * option bytes :=
+  match vs with
+  | a :: b :: t => let '(ps, last) := pairs_vals t in ((a, b) :: ps, last)
+  | [a] => ([], Some a)
+  | [] => ([], None)
+  end.
+
+Lemma altkv_from_spec n : forall r i out, (List.length r <= n)%nat ->
+  altkv_from i r out =
+    let '(ps, last) := pairs_vals (values r) in
+    let o' := fold_left (fun o p => put (fst p) (snd p) o) ps out in
+    match last with Some v => put (itoa (i + N.of_nat (List.length ps))) v o' | None => o' end.
+Proof.
+  induction n as [|n IH]; intros r i out Hlen.
+  - destruct r; [reflexivity|cbn in Hlen; lia].
+  - destruct r as [|[k1 v1] [|[k2 v2] t]]; [reflexivity|cbn; now rewrite N.add_0_r|].
+    cbn [altkv_from values map snd pairs_vals]. rewrite IH by (cbn in Hlen; lia).
+    fold (values t). destruct (pairs_vals (values t)) as [ps last]. cbn [fold_left fst snd List.length].
+    destruct last; [|reflexivity]. f_equal. f_equal. lia.
+Qed.
+
+Theorem altkv_spec r :
+  altkv r =
+    let '(ps, last) := pairs_vals (values r) in
+    let o' := fold_left (fun o p => put (fst p) (snd p) o) ps [] in
+    match last with Some v => put (itoa (1 + N.of_nat (List.length ps))) v o' | None => o' end.
+Proof. unfold altkv. apply (altkv_from_spec (List.length r)). lia. Qed.
